@@ -8,7 +8,8 @@ THEOREM_NAMES = ['ignore_skips', 'ignored_reaction_survives', 'reaction_missing_
                  'complement_sequence_strong', 'non_iupac_rejected', 'failed_read_restores', 'sl_domain_length_mismatch',
                  'dl_domain_lengths', 'read_domains_sigma', 'read_sequences_sigma', 'read_strands_sigma',
                  'read_scomplexes_sigma', 'read_kernels_sigma', 'read_duplicate_refused',
-                 'read_pil_domains_text', 'read_pil_strands_text', 'read_pil_complexes_text', 'read_pil_kernels_text']
+                 'read_pil_domains_text', 'read_pil_strands_text', 'read_pil_complexes_text', 'read_pil_kernels_text',
+                 'read_macrostates_sigma', 'macrostate_redeclared', 'read_reactions_sigma', 'reaction_redeclared']
 THEOREMS = ['Dsd.C14.' + t for t in THEOREM_NAMES] + ['Dsd.TextSig.render_parses']
 ASSUMPTIONS = [
     'consistent systems are generated from an abstract model (domains with lengths or IUPAC sequences, strands / composite domains, '
@@ -33,18 +34,24 @@ MANIFEST = {
             'under its name, its registry object carries the minimal rotation as canonical form and all rotations as keys, its state the '
             'declared sequence / structure with rotate^turns(canon) = declared, its children are the dictionary\'s domain objects), '
             'read_kernels_sigma (plus kernel-notation complexes with optional concentration triple), read_duplicate_refused (the same '
-            'complex declared again under a new name is a SingletonError). ON TEXT: render_parses (the canonical rendering of a declared '
+            'complex declared again under a new name is a SingletonError), read_macrostates_sigma (plus macrostates: canonical form = the '
+            'members\' canonical forms sorted, children = the dictionary\'s complex objects; macrostate_redeclared: permuted members '
+            'under the same name return the same object, another member set is a SingletonError), read_reactions_sigma (plus '
+            'reactions with info box and ignorable reactions interleaved: condensed ones exactly in con_reactions, the others exactly '
+            'in det_reactions, no duplicates, sorted reactant / product keys, type, rate literal and units, children = member objects; '
+            'ignorable lines only counted; reaction_redeclared: a second declaration adds nothing). ON TEXT: render_parses (the canonical rendering of a declared '
             'system parses - C13.document_rt + statement instances - to literally the token trees of the theorems above) and '
             'read_pil_domains_text / _strands_text / _complexes_text / _kernels_text: parseDoc followed by readDoc on the rendered text '
             'succeeds with the same conclusions, i.e. read_pil(render(system)) = system on the model. Clause theorems: ignore_skips, ignored_reaction_survives, '
             'reaction_missing_member, complement_sequence_strong, failed_read_restores, sl_domain_length_mismatch, dl_domain_lengths; '
-            'component theorems of C01, C02, C12/C13 (kernel_rt, resolve_kernel_inverse) and C17. Macrostates, reactions and kernel strings '
-            'that use composite domains have no end-to-end theorem yet: for them the property is decided on the real reader by an independent abstract model of PIL '
+            'component theorems of C01, C02, C12/C13 (kernel_rt, resolve_kernel_inverse) and C17. Kernel strings that use composite domains '
+            '(the reader\'s fallback loop) and the numeric interpretation of rate / concentration literals (float, flint) have no '
+            'theorem: for them the property is decided on the real reader by an independent abstract model of PIL '
             'systems (all attributes, identical singletons, `ignore`, line vs document, several documents per configured session) plus '
             'the model correspondence.',
-    'note': 'End-to-end exactness is a theorem for domains, sequences, strands and complexes in both notations; for macrostates and reactions it is '
+    'note': 'End-to-end exactness is a theorem for all five kinds of object (kernel strings without composite domains; numbers as literals); the rest is '
             'established by exploration on the real code plus model correspondence; trusted base as in DESIGN.md section 3.',
-    'technique': 'Lean 4 model of the whole reader: end-to-end theorems for domain / sequence / strand / complex systems, clause theorems; correspondence on generated systems; model-based oracle',
+    'technique': 'Lean 4 model of the whole reader: end-to-end theorems for systems of all five object kinds, on token trees and on rendered text; clause theorems; correspondence on generated systems; model-based oracle',
 }
 
 
